@@ -57,6 +57,18 @@ Theorem C16_decrypt_enc : forall p q k m r, prime p -> prime q -> p <> q ->
 Proof. exact decrypt_enc. Qed.
 Print Assumptions C16_decrypt_enc.
 
+(* plaintexts carried in a smaller ring Z_M, M <= N: accepted by the public-key encryption, which
+   encrypts the VALUE m (textbook formula with N, not M) and decrypts back to it *)
+Theorem C16_decrypt_enc_ring : forall p q k M m r c, prime p -> prime q -> p <> q ->
+  precompute p q = Some k -> Z.gcd r (p * q) = 1 -> 0 <= m < M ->
+  pk_enc_ring (p * q) M m r = Some c -> decrypt k c = m /\ c = textbook (p * q) m r.
+Proof. exact decrypt_enc_ring. Qed.
+Print Assumptions C16_decrypt_enc_ring.
+
+Theorem C16_enc_ring_accepts : forall N M m r, 0 < M <= N -> pk_enc_ring N M m r = Some (enc N m r).
+Proof. exact pk_enc_ring_accepts. Qed.
+Print Assumptions C16_enc_ring_accepts.
+
 (* decryption of combined ciphertexts: the operations act on plaintexts as +, scalar *, shift, identity *)
 Theorem C16_decrypt_homomorphic : forall p q k, prime p -> prime q -> p <> q -> precompute p q = Some k ->
   (forall m1 r1 m2 r2, Z.gcd r1 (p * q) = 1 -> Z.gcd r2 (p * q) = 1 ->
